@@ -9,7 +9,7 @@ Fixpoint lstrip (s : str) : str :=
   | [] => []
   end.
 
-Definition rstrip (s : str) : str := rev (lstrip (rev s)).
+Definition rstrip (s : str) : str := frev (lstrip (frev s)).
 Definition strip (s : str) : str := rstrip (lstrip s).
 
 Fixpoint starts_with (w s : str) : bool :=
@@ -18,7 +18,7 @@ Fixpoint starts_with (w s : str) : bool :=
   | x :: w' => match s with y :: s' => (x =? y) && starts_with w' s' | [] => false end
   end.
 
-Definition ends_with (w s : str) : bool := starts_with (rev w) (rev s).
+Definition ends_with (w s : str) : bool := starts_with (frev w) (frev s).
 
 Fixpoint drop_prefix (w s : str) : option str :=
   match w with
@@ -60,8 +60,8 @@ Definition replace_char (a b : char) (s : str) : str := map (fun x => if x =? a 
 (* str.split(sep) for a single character separator *)
 Fixpoint split_char_aux (sep : char) (s : str) (cur : str) : list str :=
   match s with
-  | [] => [rev cur]
-  | x :: t => if x =? sep then rev cur :: split_char_aux sep t [] else split_char_aux sep t (x :: cur)
+  | [] => [frev cur]
+  | x :: t => if x =? sep then frev cur :: split_char_aux sep t [] else split_char_aux sep t (x :: cur)
   end.
 Definition split_char (sep : char) (s : str) : list str := split_char_aux sep s [].
 
